@@ -63,6 +63,8 @@ def instances(tier, seed):
     out.append(dict(label='inactive_value', c07_kind='inactive'))
     for name in dsg_pool.TEMPLATES:
         out.append(dict(label=f'enum_vs_decode {name}', c07_kind='enumdecode', template=name))
+    if tier == 'thorough':
+        out.append(dict(label='crosshair second opinion: iterspec', c07_kind='crosshair', kernel='iterspec'))
     return out
 
 
@@ -314,3 +316,21 @@ def replay(rec):
         print(vec, '->', nx, na)
         return True
     return True
+
+
+def _run_crosshair(inst, res):
+    """second opinion only (DESIGN.md 1.2): a CrossHair counterexample where the main engine proved the claim makes this
+    instance inconclusive; 'Not confirmed' is reported as not covered"""
+    from checks import crosshair_opinion
+    out = crosshair_opinion.run(inst['kernel'], per_condition_timeout=30)
+    res['crosshair'] = out
+    res['paths'] = len(out)
+    res['obligations'] += len(out)
+    res['discharged'] += len([o for o in out if o['verdict'] == 'confirmed'])
+    for o in out:
+        if o['verdict'] in ('counterexample', 'error'):
+            res['status'] = INCONCLUSIVE
+            res['notes'].append(f"CrossHair {o['function']}: {o['verdict']}: {o['detail']}")
+        elif o['verdict'] != 'confirmed':
+            res['notes'].append(f"CrossHair {o['function']}: not covered ({o['detail']})")
+    res['sample'] = dict(harness=inst['label'], crosshair=out)
